@@ -290,6 +290,9 @@ func minimiseAndReport(bt *builtTree, prop, tier string, seed uint64, f *found) 
 		}
 	}
 	endN, _ := tapeSize(eff)
+	if len(tr) > 2000 {
+		tr = append(append(append([]string{}, tr[:200]...), fmt.Sprintf("... (%d trace lines omitted; replay prints them all) ...", len(tr)-1200)), tr[len(tr)-1000:]...)
+	}
 	rf := &replayFile{Property: prop, Tier: tier, Lane: lc.Name, Seed: seed, Run: f.run, Tape: eff, Violation: v,
 		Trace: tr, TreeDigest: treeDigest(),
 		Minimised: fmt.Sprintf("%d -> %d tape entries, %d candidates executed, %d accepted, %.1fs", startN, endN, tried, accepted, time.Since(t0).Seconds())}
@@ -351,9 +354,17 @@ func replayCmd(path string) int {
 	lanes = one
 	bt := buildFor(rf.Property)
 	lanes = saved
-	v, _, tr, stderr, err := execTape(bt, rf.Property, rf.Tier, rf.Seed, *lc, rf.Run, rf.Tape, true)
-	if err != nil {
-		infra("replay failed: %v", err)
+	var v *Violation
+	var tr []string
+	var stderr string
+	if rf.ChunkFrom != nil {
+		v, tr, stderr = runPrefix(bt, rf.Property, rf.Tier, rf.Seed, *lc, *rf.ChunkFrom, rf.Run, true)
+	} else {
+		var err error
+		v, _, tr, stderr, err = execTape(bt, rf.Property, rf.Tier, rf.Seed, *lc, rf.Run, rf.Tape, true)
+		if err != nil {
+			infra("replay failed: %v", err)
+		}
 	}
 	if len(tr) == 0 {
 		tr = traceFromStderr(stderr)
@@ -374,4 +385,52 @@ func replayCmd(path string) int {
 	}
 	fmt.Printf("VIOLATION property=%s replay=%s\n", rf.Property, path)
 	return 1
+}
+
+// runPrefix executes runs from..run of the seed in one fresh worker process
+// and returns the violation reported for run (nil if none, or if an earlier
+// run violated).
+func runPrefix(bt *builtTree, prop, tier string, seed uint64, lc laneCfg, from, run uint64, trace bool) (*Violation, []string, string) {
+	args := append(workerArgs(prop, tier, lc, seed), "-from", fmt.Sprint(from), "-to", fmt.Sprint(run+1))
+	if trace {
+		args = append(args, "-tracerun", fmt.Sprint(run))
+	}
+	wo := runWorker(bt.bins[lc.Race], 30*time.Minute, args...)
+	if wo.err != nil {
+		return nil, nil, wo.stderr
+	}
+	for _, l := range wo.lines {
+		if l.T == "done" && l.Viol != nil {
+			if l.Run == run {
+				return l.Viol, l.Trace, wo.stderr
+			}
+			return nil, nil, wo.stderr
+		}
+	}
+	return nil, nil, wo.stderr
+}
+
+// prefixReplay is the fallback for violations that depend on state the
+// library keeps at package level between the runs of one worker process: the
+// replay is then the whole prefix of the chunk, executed in one fresh process.
+// It is exact (runs are regenerated from the seed) but not minimised.
+func prefixReplay(bt *builtTree, prop, tier string, seed uint64, f *found) *replayFile {
+	for attempt := 0; attempt < 2; attempt++ {
+		v, _, _ := runPrefix(bt, prop, tier, seed, f.lane, f.from, f.run, false)
+		if v == nil || v.Class != f.viol.Class {
+			return nil
+		}
+	}
+	v, tr, stderr := runPrefix(bt, prop, tier, seed, f.lane, f.from, f.run, true)
+	if v == nil || v.Class != f.viol.Class {
+		return nil
+	}
+	from := f.from
+	rf := &replayFile{Property: prop, Tier: tier, Lane: f.lane.Name, Seed: seed, Run: f.run, Violation: v, Trace: tr,
+		TreeDigest: treeDigest(), ChunkFrom: &from,
+		Minimised: fmt.Sprintf("not minimised: the violation needs the %d preceding runs of the same worker process (state kept by the library at package level); the replay executes runs %d..%d of seed %d in one fresh process", f.run-f.from, f.from, f.run, seed)}
+	if v.Class == "data-race" {
+		rf.RaceReport = raceReport(stderr)
+	}
+	return rf
 }
